@@ -145,8 +145,14 @@ impl FreezerFiles {
             self.head = Head::new(new_head_file, 0);
         }
 
+        #[cfg(feature = "verif-hooks")]
+        crate::verif_hooks::point("append:before-data");
         self.head.write(data)?;
+        #[cfg(feature = "verif-hooks")]
+        crate::verif_hooks::point("append:before-index");
         self.write_index(self.head_id, self.head.bytes)?;
+        #[cfg(feature = "verif-hooks")]
+        crate::verif_hooks::point("append:after-index");
         self.number.fetch_add(1, Ordering::SeqCst);
 
         if let Some(metrics) = ckb_metrics::handle() {
@@ -159,6 +165,8 @@ impl FreezerFiles {
 
     /// Attempts to sync all OS-internal metadata to disk.
     pub fn sync_all(&self) -> Result<(), IoError> {
+        #[cfg(feature = "verif-hooks")]
+        crate::verif_hooks::point("sync:before");
         self.head.file.sync_all()?;
         self.index.sync_all()?;
         Ok(())
